@@ -4,6 +4,7 @@ raw image); independently the raw image is decoded by Spec/Abs.v after every op 
 import vlib, sessions
 from vlib import hexs
 from props import sess_common as sc
+from props import volfile_corr
 
 PROP_FILES = ["Props/C04.v"]
 
@@ -39,6 +40,9 @@ def remount_session(rng, conf, nops, points):
 
 def run(rep, tier, seed):
     rng = vlib.Rng(seed)
+    # file level (C04_file_decodes_*): the image-level machine next to the library, and Spec/Abs.v decoding the DEVICE bytes of
+    # one file after every history (chain walk, content, extents) - props/volfile_corr.py
+    volfile_corr.stream(rep, tier, vlib.Rng(seed * 104729 + 11), "C04")
     confs = sessions.configs(tier)
     n = 60 if tier == "quick" else 1000
     scripts = []
